@@ -1,4 +1,5 @@
 import Nstd.Path.Lemmas
+import Nstd.Path.Props
 /-
   Property C19, path part, extension round: full declarative specifications of the decomposition functions of
   File.cpp — the decomposition they return is the ONLY one of its shape (for all strings, both separators).
@@ -46,8 +47,107 @@ theorem stem_ext_no_dot (p : Bytes) (h : ∀ x ∈ getBaseName p [], isDot x = f
 theorem stem_with_extension (p e : Bytes) (hne : e ≠ []) : getStem p e = getBaseName p e := by
   simp [getStem, hne]
 
+theorem suffix_iff_drop (e b : Bytes) :
+    e <:+ b ↔ b.length ≥ e.length ∧ b.drop (b.length - e.length) = e := by
+  constructor
+  · rintro ⟨t, rfl⟩
+    refine ⟨by simp, ?_⟩
+    have : (t ++ e).length - e.length = t.length := by simp
+    rw [this, List.drop_left]
+  · rintro ⟨_, h2⟩
+    refine ⟨b.take (b.length - e.length), ?_⟩
+    conv => rhs; rw [← List.take_append_drop (b.length - e.length) b]
+    rw [h2]
+
+theorem suffix_dot_iff (e b : Bytes) :
+    (46 :: e) <:+ b ↔ b.length ≥ e.length + 1 ∧ b[b.length - (e.length + 1)]? = some 46 ∧
+      b.drop (b.length - e.length) = e := by
+  constructor
+  · rintro ⟨t, rfl⟩
+    refine ⟨by simp, ?_, ?_⟩
+    · have : (t ++ 46 :: e).length - (e.length + 1) = t.length := by simp
+      rw [this]; simp
+    · have h1 : (t ++ 46 :: e).length - e.length = (t ++ [46]).length := by simp; omega
+      have h2 : t ++ 46 :: e = (t ++ [46]) ++ e := by simp
+      rw [h1, h2, List.drop_left]
+  · rintro ⟨h3, h4, h5⟩
+    rw [suffix_iff_drop]
+    refine ⟨by simp; omega, ?_⟩
+    have hlt : b.length - (e.length + 1) < b.length := by omega
+    have hl : (46 :: e).length = e.length + 1 := by simp
+    rw [hl, List.drop_eq_getElem_cons hlt]
+    have : b[b.length - (e.length + 1)] = 46 := by
+      have := List.getElem?_eq_getElem hlt
+      rw [this] at h4
+      exact Option.some.inj h4
+    rw [this]
+    congr 1
+    have : b.length - (e.length + 1) + 1 = b.length - e.length := by omega
+    rw [this, h5]
+
+/-- getBaseName(file, extension) / getStem(file, extension) with a non-empty extension, exactly (B = the base name
+    without extension argument; `<:+` = is a suffix of): an extension that starts with a dot is cut off exactly when B
+    ends with it; any other extension `e` is cut off, together with the dot before it, exactly when B ends with
+    "." ++ e; in every other case B is returned unchanged. -/
+theorem base_ext_spec (p e : Bytes) (hne : e ≠ []) :
+    getStem p e = getBaseName p e ∧
+    (e.head? = some 46 →
+      (e <:+ getBaseName p [] → getBaseName p e ++ e = getBaseName p []) ∧
+      (¬ e <:+ getBaseName p [] → getBaseName p e = getBaseName p [])) ∧
+    (e.head? ≠ some 46 →
+      ((46 :: e) <:+ getBaseName p [] → getBaseName p e ++ 46 :: e = getBaseName p []) ∧
+      (¬ (46 :: e) <:+ getBaseName p [] → getBaseName p e = getBaseName p [])) := by
+  have hb : getBaseName p [] = afterLastSep p := by simp [getBaseName]
+  have hel : e.length ≠ 0 := by intro h; exact hne (List.eq_nil_of_length_eq_zero h)
+  refine ⟨by simp [getStem, hne], ?_, ?_⟩
+  · intro hh
+    rw [hb, suffix_iff_drop]
+    unfold getBaseName
+    simp only [hel, if_false, hh, if_true]
+    constructor
+    · intro h
+      rw [if_pos h]
+      conv => rhs; rw [← List.take_append_drop ((afterLastSep p).length - e.length) (afterLastSep p)]
+      rw [h.2]
+    · intro h; rw [if_neg h]
+  · intro hh
+    rw [hb, suffix_dot_iff]
+    unfold getBaseName
+    simp only [hel, if_false, hh]
+    constructor
+    · intro h
+      rw [if_pos h]
+      have hs := (suffix_dot_iff e (afterLastSep p)).mpr h
+      rw [suffix_iff_drop] at hs
+      have hl : (46 :: e).length = e.length + 1 := by simp
+      rw [hl] at hs
+      conv => rhs; rw [← List.take_append_drop ((afterLastSep p).length - (e.length + 1)) (afterLastSep p)]
+      rw [hs.2]
+    · intro h; rw [if_neg h]
+
+/-- root-level paths: a string that consists of ONE separator (either kind) followed by a separator-free name `b`
+    ("/file", "\\x", "/") has the EMPTY directory name and base name `b` — the separator at index 0 is found. -/
+theorem root_level_split (s : Nat) (b : Bytes) (hs : isSep s = true) (hb : ∀ x ∈ b, isSep x = false) :
+    getDirectoryName (s :: b) = [] ∧ getBaseName (s :: b) [] = b := by
+  simpa using dir_base_unique [] b s hs hb
+
+/-- directory name + "/" + base name is lexically the same path as the argument: simplifyPath cannot tell them
+    apart — for every string, root-level paths and both separators included -/
+theorem dir_base_simplify (p : Bytes) :
+    simplifyPath (getDirectoryName p ++ 47 :: getBaseName p []) = simplifyPath p :=
+  (simplify_eq_iff _ _).mpr (dir_base_denote p)
+
+/-- … and byte for byte when the last separator of the argument is a `/` -/
+theorem dir_base_exact (d b : Bytes) (hb : ∀ x ∈ b, isSep x = false) :
+    getDirectoryName (d ++ 47 :: b) ++ 47 :: getBaseName (d ++ 47 :: b) [] = d ++ 47 :: b := by
+  obtain ⟨h1, h2⟩ := dir_base_unique d b 47 (by decide) hb
+  rw [h1, h2]
+
 /-! non-vacuity -/
 example : getDirectoryName ([99, 58, 92, 97] ++ 47 :: [98, 46, 99]) = [99, 58, 92, 97] := (dir_base_unique _ _ 47 (by decide) (by decide)).1
 example : getBaseName [97, 47, 98] [] = [] ++ 46 :: [] → False := by decide
+example : getDirectoryName [47, 102] = [] ∧ getBaseName [47, 102] [] = [102] := root_level_split 47 [102] (by decide) (by decide)
+example : getDirectoryName [47] = [] ∧ getBaseName [47] [] = [] := root_level_split 47 [] (by decide) (by simp)
+example : getBaseName [97, 46, 116, 120, 116] [116, 120, 116] = [97] := by decide
 
 end Nstd.Path
